@@ -23,7 +23,7 @@ ASSUMPTIONS = [
 COMPONENTS = {"real": ["TradingEnv.step (delay deque)", "Transmitter", "PortfolioSpace.null_action/make_rebalancing_request", "Broker.rebalance", "Exchange"],
               "harness": ["delivery model", "plain-list delay queue model"], "stub": []}
 PROBE_FLOORS = {"second_episode_on_same_env": 169, "delay_ge_2": 241, "discrete_with_delay": 100, "quote_exactly_on_latency_bound": 65,
-                "quote_1us_after_latency_bound": 43, "episode_shorter_than_delay": 20, "trade_priced": 2000, "late_event_with_latency": 70, "thinly_quoted_contracts": 120}
+                "quote_1us_after_latency_bound": 43, "episode_shorter_than_delay": 20, "trade_priced": 2000, "late_event_with_latency": 70, "thinly_quoted_contracts": 120, "environment_construction_refused": 40}
 
 PROFILE = {
     "n_min": 2, "n_max": 12, "n_long": 40, "p_long": 0.1, "c_min": 1, "c_max": 3, "p_bar": 1.0, "extras_max": 10,
@@ -158,6 +158,8 @@ def execute(scenario):
         n_exec = sum(1 for st in ep["steps"] if st.get("exc") is None and not st["done_before"])
         if env_spec.get("thin"):
             probe("thinly_quoted_contracts")
+        if ei == 0 and sim.faults.get("environment_construction_refused"):
+            probe("environment_construction_refused")
         if delay >= 2:
             probe("delay_ge_2")
         if sim.faults.get("events_added_after_construction") and env_spec["latency_us"]:
